@@ -382,6 +382,244 @@ def _with_helpers(F, body, absorbed):
     return nb
 
 
+_LEN = ['alloc::vec::Vec::<T, A>::len', 'core::slice::<impl [T]>::len']
+_DEREF = [re.compile(r'ops::deref::Deref(Mut)?>::deref(_mut)?$')]
+_INDEX = [re.compile(r'ops::index::Index(Mut)?<I>>::index(_mut)?$')]
+
+
+def _pkey(p):
+    return None if p is None else (p['l'], list(p.get('p') or []))
+
+
+def _stack_of(du, operand, depth=3):
+    """The place a `&stack` / `&*stack` / `stack.deref()` operand denotes."""
+    for _ in range(depth):
+        l = Q.operand_local(operand)
+        d = du.single_def(l) if l is not None else None
+        if d is not None and d[1] == 't' and Q.callee_is(d[2], _DEREF):
+            operand = d[2]['a'][0]
+            continue
+        break
+    return _trace_place(du, operand)
+
+
+def _copy_chain(du, operand, target):
+    """Positions [(block, idx)] of the single-definition plain copies that lead from `operand` back to the local
+    `target` (a loop counter, which has several definitions); None if the operand is not such a copy."""
+    out = []
+    p = Q.operand_place(operand)
+    for _ in range(8):
+        if p is None or p.get('p'):
+            return None
+        if p['l'] == target:
+            return out
+        d = du.single_def(p['l'])
+        if d is None or d[1] == 't' or d[2]['k'] != 'assign' or d[2]['rv']['k'] != 'use':
+            return None
+        out.append((d[0], d[1]))
+        p = Q.operand_place(d[2]['rv']['o'])
+    return None
+
+
+def _explicit_scan_loop(F, body, du, rb, dr_stack, dr_from, removers):
+    """`stack[from..]` is scanned for a read-only entry by an explicit counting loop that the removal at block `rb` can
+    only be reached through, by the loop's exhaustion edge:
+        top-down   `c = stack.len(); while c > from { c -= 1; if stack[c].variable.is_read_only() { <leave> } }`
+        bottom-up  `c = from; while c < stack.len() { if stack[c].variable.is_read_only() { <leave> }; c += 1 }`
+    Decided on the CFG: the exit edge that dominates the removal tests the counter against the bound the scan must reach
+    (`from` resp. `stack.len()`); the counter starts at the other bound and its only other definitions are ONE +-1 step
+    per iteration; every iteration passes, in the right order with respect to the step, a test
+    `stack[c].variable.is_read_only()` on the same stack whose true edge leaves the loop and cannot reach the removal.
+    Returns (True, closure-free evidence text) | (False, None) when no loop scan is present | (None, reason) when a
+    loop that calls is_read_only guards the removal but is not one of the shapes above (caller fails closed)."""
+    seen_ro_loop = None
+    for org, lab, (u, v) in Q.dominating_conditions(F, body, du, rb):
+        org, lab = Q.peel_not(du, org, lab)
+        fw = body.reachable(u)
+        L = {x for x in fw if x != u and u in body.reachable(x)} | {u}
+        if len(L) == 1 and u not in [s for s in body.succ(u)]:
+            continue
+        if v in L or rb in L:
+            continue
+        ro_calls = [(b, t) for b, t in Q.find_calls(body, [VAR + '::is_read_only']) if b in L]
+        if not ro_calls:
+            continue
+        seen_ro_loop = seen_ro_loop or 'the loop that scans for a read-only variable is not a recognised counting loop over the drained range'
+
+        def bad(msg):
+            nonlocal seen_ro_loop
+            seen_ro_loop = msg
+        heads = [h for h in L if all(body.dominates(h, x) for x in L)]
+        if len(heads) != 1:
+            bad('the scanning loop has several entries')
+            continue
+        head = heads[0]
+        if head != u and any(head in body.reachable(s, removed=[u]) for s in body.succ(head) if s in L):
+            bad('an iteration of the scanning loop can skip the exit test')
+            continue
+
+        def at_test(bk):     # in the loop, and not between the exit test and the end of the iteration
+            return bk in L and (bk == u or not body.dominates(u, bk))
+        if any(b in L for b, t in removers):
+            bad('the scanning loop itself removes entries')
+            continue
+        if org['k'] != 'binop' or not at_test(org.get('b')) or lab[0] != 'bool' or org['rv']['op'] not in ('Gt', 'Lt', 'Ge', 'Le', 'Eq', 'Ne'):
+            bad('the exit test of the scanning loop is not a comparison of the counter with a bound')
+            continue
+        # classify the operands of the exit test
+        def classify(o):
+            p = _trace_place(du, o)
+            if p is None:
+                return ('?', None)
+            if dr_from is not None and _pkey(p) == _pkey(dr_from):
+                return ('from', None)
+            if not p.get('p'):
+                ds = du.defs.get(p['l'], [])
+                if len(ds) == 1 and ds[0][1] == 't' and Q.callee_is(ds[0][2], _LEN) and _pkey(_stack_of(du, ds[0][2]['a'][0])) == _pkey(dr_stack):
+                    return ('len', None)
+                if len(ds) > 1:
+                    return ('ctr', p['l'])
+            return ('?', None)
+        ka, kb = classify(org['rv']['a']), classify(org['rv']['b'])
+        op, truth = org['rv']['op'], lab[1]
+        if kb[0] == 'ctr' and ka[0] != 'ctr':        # normalise to  ctr <op> bound
+            ka, kb = kb, ka
+            op = {'Gt': 'Lt', 'Lt': 'Gt', 'Ge': 'Le', 'Le': 'Ge'}.get(op, op)
+            oa, ob = org['rv']['b'], org['rv']['a']
+        else:
+            oa, ob = org['rv']['a'], org['rv']['b']
+        if ka[0] != 'ctr' or kb[0] not in ('from', 'len'):
+            bad('the exit test of the scanning loop does not compare a counter with the start of the drained range or the length of the stack')
+            continue
+        c = ka[1]
+        # exit edge means "counter has reached the bound"
+        if kb[0] == 'from':      # top-down: leaves when c <= from
+            reached = (op, truth) in (('Gt', False), ('Le', True), ('Eq', True), ('Ne', False))
+            want_step, init_kind = -1, 'len'
+        else:                    # bottom-up: leaves when c >= len
+            reached = (op, truth) in (('Lt', False), ('Ge', True), ('Eq', True), ('Ne', False))
+            want_step, init_kind = 1, 'from'
+        if not reached:
+            bad('the removal is not on the edge where the scanning loop has reached the end of the range')
+            continue
+        chain = _copy_chain(du, oa, c)
+        if chain is None or not all(at_test(b) for b, j in chain):
+            bad('the exit test of the scanning loop reads a stale copy of the counter')
+            continue
+        if dr_from is None or any(d[0] in L for d in du.defs.get(dr_from['l'], [])):
+            bad('the start of the drained range changes inside the scanning loop')
+            continue
+        # the counter is not written through a reference
+        if any(s['k'] == 'assign' and s['rv']['k'] == 'ref' and s['rv'].get('mut') and s['rv']['pl']['l'] == c for b, j, s in body.stmts()):
+            bad('the counter of the scanning loop is borrowed mutably')
+            continue
+        # definitions of the counter: one initialisation before the loop, one +-1 step inside
+        inits, steps, other = [], [], False
+        for d in du.defs.get(c, []):
+            blk, idx, node = d
+            if not Q.is_plain(node.get('lhs') or node.get('dest')):
+                other = True
+            elif blk not in L:
+                inits.append(d)
+            else:
+                st = None
+                if idx != 't' and node['k'] == 'assign':
+                    rv = node['rv']
+                    if rv['k'] == 'use':
+                        q = Q.operand_place(rv['o'])
+                        if q is not None and [e.get('f') if isinstance(e, dict) else e for e in q.get('p') or []] == ['0']:
+                            dd = du.single_def(q['l'])
+                            rv = dd[2]['rv'] if dd is not None and dd[1] != 't' and dd[2]['k'] == 'assign' and dd[0] in L else rv
+                    if rv['k'] == 'binop' and rv['op'] in ('Add', 'Sub', 'AddWithOverflow', 'SubWithOverflow', 'AddUnchecked', 'SubUnchecked') \
+                            and _pkey(Q.operand_place(rv['a'])) == (c, []) and re.match(r'^1(_usize)?$', str(rv['b'].get('c', ''))):
+                        st = 1 if rv['op'].startswith('Add') else -1
+                if st is None:
+                    other = True
+                else:
+                    steps.append((blk, idx, st))
+        if other or len(inits) != 1 or len(steps) != 1 or steps[0][2] != want_step or not body.dominates(inits[0][0], u):
+            bad('the counter of the scanning loop is not initialised once and stepped by one once per iteration towards the end of the range')
+            continue
+        ib, ii, inode = inits[0]
+        if init_kind == 'len':
+            init_ok = ii == 't' and Q.callee_is(inode, _LEN) and _pkey(_stack_of(du, inode['a'][0])) == _pkey(dr_stack)
+        else:
+            init_ok = ii != 't' and inode['k'] == 'assign' and inode['rv']['k'] == 'use' and _pkey(_trace_place(du, inode['rv']['o'])) == _pkey(dr_from)
+        if not init_ok:
+            bad('the scanning loop does not start at the %s' % ('top of the stack' if init_kind == 'len' else 'start of the drained range'))
+            continue
+        sb, si, _ = steps[0]
+        if not body.dominates(u, sb):
+            bad('the counter of the scanning loop is stepped before the exit test')
+            continue
+        # every iteration performs the step
+        if any(u in body.reachable(s, removed=[sb]) for s in body.succ(u) if s in L and s != sb) or \
+                (sb == u):
+            bad('an iteration of the scanning loop can skip the step of the counter')
+            continue
+        # the tests  stack[c].variable.is_read_only()  whose true edge leaves for good
+        cont_edges = set()
+        for b, t in ro_calls:
+            p = _trace_place(du, t['a'][0])
+            if p is None or not _projects(p, VIC, 'variable'):
+                continue
+            d = du.single_def(p['l'])
+            if d is None or d[1] != 't' or not Q.callee_is(d[2], _INDEX):
+                continue
+            it = d[2]
+            if _pkey(_stack_of(du, it['a'][0])) != _pkey(dr_stack):
+                continue
+            ch = _copy_chain(du, it['a'][1], c)
+            if ch is None:
+                continue
+            pos = ch + [(d[0], 't')]
+            if not all(body.dominates(u, bk) and bk != u for bk, j in pos):
+                continue
+
+            def after_step(bk, j):
+                return (bk == sb and (j == 't' or j > si)) or (bk != sb and bk in L and body.dominates(sb, bk))
+
+            def before_step(bk, j):
+                return bk in L and ((bk == sb and j != 't' and j < si) or (bk != sb and body.dominates(bk, sb)))
+            if not all((after_step if want_step < 0 else before_step)(bk, j) for bk, j in pos):
+                continue
+            for sw in L:
+                if body.term(sw)['k'] != 'switch':
+                    continue
+                ec = Q.edge_condition(F, body, du, sw)
+                if ec is None:
+                    continue
+                for tgt, labs in ec[1].items():
+                    for lb in labs:
+                        o2, l2 = Q.peel_not(du, ec[0], lb)
+                        if o2.get('k') == 'call' and o2['t'] is t and l2 == ('bool', False):
+                            others = [x for x in body.succ(sw) if x != tgt]
+                            if all(x not in L and rb not in body.reachable(x) for x in others):
+                                cont_edges.add((sw, tgt))
+        if not cont_edges:
+            bad('no test `stack[counter].variable.is_read_only()` on the drained stack leaves the scanning loop for good when it finds a read-only entry')
+            continue
+        sws = {sw for sw, tgt in cont_edges}
+        if sb in sws or u in sws:
+            bad('the step of the counter is entangled with the is_read_only() test')
+            continue
+        if want_step < 0:
+            # step -> test (false edge) -> header
+            thru = body.reachable(sb, removed_edges=cont_edges)
+            passed = u not in thru and rb not in thru
+        else:
+            # header -> test (false edge) -> step
+            passed = all(sb not in body.reachable(s, removed_edges=cont_edges) for s in body.succ(u) if s in L)
+        if not passed:
+            bad('an iteration of the scanning loop can move on to the next entry without testing is_read_only()')
+            continue
+        return True, '%s counting loop over stack[from..] with is_read_only() test at %s' % (
+            'top-down' if want_step < 0 else 'bottom-up', body.loc(body.term(sorted(sws)[0])))
+    if seen_ro_loop:
+        return None, seen_ro_loop
+    return False, None
+
+
 @RS.rule('C16.R2', 'K-GUARD+K-WRITERS+K-TYPE', 'read-only variables: value written only on the not-read-only edge, read-only mark never cleared, unset scans what it drains, no &mut Variable handed out')
 def r2(cx):
     F = cx.F
@@ -500,6 +738,16 @@ def r2(cx):
                 continue
             ok = True
             cx.fn(cb.fn)
+        if not ok and Q.callee_is(rt, ['alloc::vec::Vec::<T, A>::drain']) and dr_stack is not None:
+            # the same search written as an explicit counting loop (no std search adapter, no closure)
+            verdict, text = _explicit_scan_loop(F, body, du, rb, dr_stack, dr_from, removers)
+            if verdict:
+                ok = True
+                cx.site('%s: %s' % (body.fn, text))
+            else:
+                # a loop that tests is_read_only() guards the drain but is not a shape this rule can decide: no verdict
+                cx.require(verdict is not None, 'VariableSet::unset scans for read-only variables with a hand-written loop '
+                           'that cannot be decided (%s)' % text)
         if not ok:
             cx.violation(body.root, 'unset-unscanned:%s' % pp.callee(rt).split('::')[-1], 'unset removes variables although %s: a '
                          'read-only variable in the removed range is unset' % why, loc=body.loc(rt))
